@@ -485,7 +485,8 @@ def slice_dim(f, slicedef, fuzzydim=True):
     slicedef = slicedef.split(',')
     slicedef = [slicedef[0]] + list(map(eval, slicedef[1:]))
     if len(slicedef) == 2:
-        slicedef.append(slicedef[-1] + 1)
+        # index -1 is the last element: the stop is the end, not 0
+        slicedef.append(slicedef[-1] + 1 or None)
     slicedef = (slicedef + [None, ])[:4]
     dimkey, dmin, dmax, dstride = slicedef
     if dimkey not in inf.dimensions:
